@@ -37,7 +37,7 @@ for pid in ALL:
         "level_claimed": {
             "category": "model_checking",
             "text": c["claim"] + " -- decided for every input within: " + c["bounds"],
-            "design_ref": "DESIGN.md section 1, " + pid,
+            "design_ref": "DESIGN.md section 2, " + pid,
         },
         "level_note": "Trusted base / assumptions: " + "; ".join(c.get("assumptions", [])) + ". Outside the claim: " + "; ".join(c.get("outside", [])),
         "technique": TECH[c["engine"]],
